@@ -185,6 +185,7 @@ pub struct RunResult {
     pub slow_path_ops: u64,
     pub spurious: u64,
     pub freelist_after: String,
+    pub stuck_shape: String,
 }
 
 fn op_begin(me: usize, kind: &'static str, index: usize) {
@@ -695,10 +696,13 @@ pub fn run_once(rc: &RunCfg, replay: Option<Vec<u8>>) -> RunResult {
         (c.abort, c.hang)
     };
     let mut freelist_after = String::new();
+    let mut stuck_nodes: Vec<usize> = vec![];
     if aborted {
         // leak everything; the arena memory stays valid for the witness
         if let Some(arena) = arena_opt.take() {
-            freelist_after = format!("{:?}", arena.__verif_freelist(64));
+            let snap = arena.__verif_freelist(64);
+            stuck_nodes = snap.nodes.iter().filter(|n| n.1 == 0).map(|n| base + n.0 as usize).collect();
+            freelist_after = format!("{:?}", snap);
             std::mem::forget(arena);
         }
         if let Some(x) = MAILBOX.lock().unwrap().take() {
@@ -787,6 +791,47 @@ pub fn run_once(rc: &RunCfg, replay: Option<Vec<u8>>) -> RunResult {
     let mut c = lock();
     c.active = false;
     TID.with(|t| t.set(usize::MAX));
+    // witness shape of a hang: what happened to the nodes that are marked as removed
+    let mut shapes: Vec<String> = c.marks.iter().filter(|(_, v)| v.1 != "restored-or-reinserted").map(|(a, v)| format!("arena+{}:T{}:{}", a - c.base, v.0, v.1)).collect();
+    shapes.sort();
+    let mut polled_unlinked = false;
+    if aborted {
+        // nodes marked as removed that are still reachable from the sentinel
+        stuck_nodes = c.hang_list.iter().filter(|n| n.1 == 0).map(|n| c.base + n.0 as usize).collect();
+        if freelist_after.is_empty() || true {
+            freelist_after = format!("{:?}", c.hang_list);
+        }
+        // nodes the spinning threads poll although they are no longer in the list
+        for t in 1..c.n {
+            if !c.finished[t] {
+                if let Some(Some(a)) = c.last_removed_seen.get(t) {
+                    if !stuck_nodes.contains(a) {
+                        polled_unlinked = true;
+                    }
+                }
+            }
+        }
+    }
+    let stuck_states: Vec<&'static str> = stuck_nodes.iter().filter_map(|a| c.marks.get(a).map(|v| v.1)).collect();
+    let cyclic = {
+        let mut seen = std::collections::HashSet::new();
+        c.hang_list.iter().any(|n| !seen.insert(n.0)) || c.hang_list.len() >= 64
+    };
+    let stuck_shape = if cyclic {
+        "free-list-cycle"
+    } else if stuck_states.iter().any(|v| *v == "unlink-failed" || *v == "marked") {
+        "mark-not-undone-after-failed-unlink"
+    } else if stuck_states.iter().any(|v| *v == "unlink-succeeded") {
+        "unlinked-from-stale-predecessor"
+    } else if stuck_states.is_empty() && polled_unlinked {
+        "polling-a-node-that-is-no-longer-linked"
+    } else if stuck_states.is_empty() {
+        "no-marked-node"
+    } else {
+        "other"
+    }
+    .to_string()
+        + &format!(" [{}]", shapes.join(", "));
     RunResult {
         events: c.events,
         steps: c.steps,
@@ -809,6 +854,7 @@ pub fn run_once(rc: &RunCfg, replay: Option<Vec<u8>>) -> RunResult {
         slow_path_ops: c.windows.keys().filter(|k| k.contains("alloc")).count() as u64,
         spurious: c.spurious_injected,
         freelist_after,
+        stuck_shape,
     }
 }
 
@@ -976,14 +1022,20 @@ fn report_run(out: &mut Out, prop: &str, rc: &RunCfg, r: &RunResult, extra_args:
     }
     let replay = format!("sched --prop {} --seed {} --only {} {}", prop, rc.seed, rc.run, extra_args);
     let ctx = |msg: &str| {
-        crate::jobj!("message" => msg, "run_cfg" => rc.to_json(), "last_events" => J::Arr(r.ring.iter().rev().take(40).rev().map(|s| J::Str(s.clone())).collect()),
+        crate::jobj!("message" => msg, "run_cfg" => rc.to_json(), "last_events" => J::Arr(r.ring.iter().rev().take(ring_cap().max(40)).rev().map(|s| J::Str(s.clone())).collect()),
             "schedule_len" => r.schedule.len(), "schedule_prefix" => J::Arr(r.schedule.iter().take(200).map(|t| J::Int(*t as i128)).collect()), "replay_args" => replay.clone())
     };
     if r.hang {
         out.inc("hang_verdicts");
         let mut d = ctx(&format!("every unfinished thread performed more than B={} atomic accesses since the last successful write in the whole system: the words they poll can no longer change", r.b_budget));
         d.set("free_list_at_hang", r.freelist_after.clone());
-        let shape = if r.freelist_after.contains(", 0, ") { "removed-node-linked" } else { "other" };
+        let first = r.stuck_shape.split(' ').next().unwrap_or("").to_string();
+        let shape = match first.as_str() {
+            "mark-not-undone-after-failed-unlink" | "unlinked-from-stale-predecessor" => format!("removed-node-linked:{}", first),
+            "polling-a-node-that-is-no-longer-linked" | "free-list-cycle" => first.clone(),
+            _ => "other".to_string(),
+        };
+        d.set("marked_nodes", r.stuck_shape.clone());
         out.viol("C07", &format!("no-progress:{}:{}", rc.freelist.name(), shape), d);
     }
     if let Some(p) = &r.arena_panic {
